@@ -49,6 +49,7 @@ signature file *.gs; the original is only read once, to make the copy, and re-ha
                            user_version / application_id set;  text encoding UTF-8 / UTF-16le / UTF-16be (rebuilt from
                            a dump);  file (and directory) made read-only on disk (chmod 0444 / 0555)
              signature file  as shipped | rewritten with the latest HDF5 file format (superblock v3) | read-only on disk
+                           | of another SIZE CLASS / with TRAILING BYTES (stream history-sigsize, below)
            x read-side uses: `gambit -d DB query` (genome files / -s SIGFILE / csv, json, archive), `dist --use-db`,
            `signatures info -d`, `signatures create --db-params`, load_from_dir + iteration + library query + in-place
            post-processing, ORM edits on a session obtained by file_sessionmaker / explicit ReadOnlySession / CLIContext,
@@ -63,6 +64,25 @@ signature file *.gs; the original is only read once, to make the copy, and re-ha
            the directory (a reader that finds a leftover -wal copies its -- already checkpointed -- frames into the
            file again: same bytes, new mtime), whether a command on a read-only directory fails.
            Model op 1803 as for `history` (the state is below the model: its genome file is an abstract value).
+
+  sigsize  (kind `history`, state key `sig`; stream history-sigsize, and one value in five of history-dbstate-random) the SIZE CLASS of
+           the signature file.  The shipped one holds 213 signatures in 257 KiB; every other stream uses it (or a smaller one).  A
+           real reference data base is hundreds of MiB, and code that reads one may take another path above some size (buffer
+           sizes, memory mapping, another open call).  States, made by the harness with h5py on a private copy: big / huge / vast =
+           the 213 reference signatures followed by 5 / 20 / 72 further copies under ids that match no genome (> 1 MiB, > 4 MiB,
+           > 16 MiB; vast and most combinations only in the thorough tier), optionally written with libver='latest', optionally
+           followed by TRAILING zero bytes up to the next multiple of 64 KiB (what a block-wise copy leaves after the end of the
+           HDF5 data; also on the shipped content: same-pad), alone and combined with the genome-file dimensions above
+           x read-side uses that open the signature file: `signatures info -d` / `signatures info FILE`, `query` (genome files /
+           -s SIGFILE), `dist --use-db`, load_from_dir / load / CLIContext.get_database + iteration + library query + in-place
+           post-processing + close, handle operations, failing variants (n-th SQL statement, unreadable query file), and a client
+           in ANOTHER PROCESS that loads the data base, reads n signatures and genomes and is KILLED (SIGKILL) while it holds
+           everything open -- a command that fails in the hardest way: no cleanup code of gambit, h5py, libhdf5 or SQLite runs
+           (invocation `load` with fail kind `kill`; model: the command cut after the data base is loaded, then the process ends).
+           JUDGED after every invocation exactly as for dbstate: SHA-256 and size of both files are those the harness left; every
+           signature-file open is in mode r -- opens made through h5py's low-level h5py.h5f.open() (default flags: read-WRITE) and
+           wrapped with h5py.File(fid) included, recorded with the access intent libhdf5 reports; writes through a handle
+           rejected.  NOT judged: mtime, side files, whether the killed client got as far as the kill (counted).
 
   dbschema (kind `history`, state key `schema`; streams history-dbschema / history-dbschema-random; the `badload` steps of kind
            `sequence`) the state dimension above varies HOW the genome file stores a complete reference data base; this one
@@ -141,6 +161,10 @@ signature file *.gs; the original is only read once, to make the copy, and re-ha
                                                                                                      seq  seq  seq  seq  no(1)
            load_signatures[_hdf5](path, **kw)        HDF5Signatures: h5py handle, ids (in memory), meta, values / bounds data sets;
                                                      arrays handed out                               old+seq old seq old+seq no(3)
+                                                     the signature FILE: its size class (257 KiB shipped | > 1 | > 4 | > 16 MiB), bytes after
+                                                     the end of the HDF5 data, superblock state left by an open that was never closed
+                                                                                                     sigsize: >= 2 uses per state + 1 killed client
+                                                                                                     process (c: the kill), bytes after each
                                                         old = one handle per case, reopened after close; in-place modification of what is handed out;
                                                         seq = two handles on one file at once, handles on A, B, Q at once, malformed file in between
                                                      module state of gambit.sigs.hdf5 (none today)   seq: r+ open of the SAME path first; failing open first
@@ -172,8 +196,8 @@ signature file *.gs; the original is only read once, to make the copy, and re-ha
 Property predicate (reported as VIOLATION with the history as replay): after every step both files
 have the same SHA-256, size and mtime, the directory has the same entries and mtime, no journal
 appeared, no INSERT/UPDATE/DELETE/CREATE/... reached a cursor, every commit() raised TypeError,
-every write through the signature handle was rejected, every handle is in mode 'r', every session is
-a ReadOnlySession in behaviour.  A model/implementation difference that leaves this predicate true
+every write through the signature handle was rejected, every handle is in mode 'r' (h5py.File(path) and
+h5py.h5f.open(path) + h5py.File(fid) alike), every session is a ReadOnlySession in behaviour.  A model/implementation difference that leaves this predicate true
 (e.g. a different count of pending objects) is reported as a broken tie."""
 import gc
 import glob
@@ -182,6 +206,7 @@ import itertools
 import json
 import os
 import shutil
+import threading
 import time
 
 PROP = 'C18'
@@ -206,6 +231,11 @@ RULE = ('session: (how the session was obtained, autoflush, operation list) -> p
         '/ load_genomeset / CLIContext.get_database with follow-up use, CLI commands, sessions, failure points) -> SHA-256 and size of both '
         'files after every invocation WHATEVER ITS OUTCOME, write statements, commit; non-trivial: >= 1 invocation got as far as a session '
         'on that genome file beginning a transaction (it may then fail: most do). '
+        'history with a state whose `sig` is a size class (stream history-sigsize): (signature file of > 1 / > 4 / > 16 MiB -- the reference '
+        'signatures plus copies that match no genome --, optionally in the latest HDF5 format, optionally with trailing zero bytes after the '
+        'HDF5 data, also on the shipped content; list of invocations that open the signature file, one of them a client process killed while '
+        'it holds the data base open) -> SHA-256 and size of both files after every invocation, mode of every open of the signature file '
+        '(high-level and low-level h5py interface); non-trivial as for `state`. '
         'sequence (streams sequence-fixed / sequence-random): script of 2-7 calls over a pool of long-lived objects shared by the '
         'steps (data base objects, session makers and open sessions, signature handles, CLI contexts, QueryParams objects, query '
         'arrays) against two different data bases, a private one a writing tool works on in between, malformed inputs (a `badload` step '
@@ -221,7 +251,15 @@ TRUSTED = ['SQLite / pysqlite: a connection that executes only SELECT/PRAGMA doe
            'SQLAlchemy 1.4 unit of work: everything the inherited Session code sends to the data base for pending '
            'objects goes through self.flush() (query autoflush, SessionTransaction.commit, begin_nested) -- the '
            'session machine of Model/C18.v; validated operation by operation against the real Session',
-           'harness recorders: Engine before/after_cursor_execute, Session after_begin, wrapper of h5py.File.__init__',
+           'harness recorders: Engine before/after_cursor_execute, Session after_begin, wrapper of h5py.File.__init__ (opens by path) and '
+           'of h5py.h5f.open (opens through the low-level interface that do not come from h5py.File(path): mode r iff libhdf5 reports the '
+           'intent ACC_RDONLY for the identifier, which is what h5py.File.mode shows)',
+           'sigsize stream: the larger / padded signature files are written by the harness with h5py (same attributes, data set names and '
+           'types as the shipped file; values tiled, bounds continued, further ids that match no genome) and by appending zero bytes, trusted '
+           'to produce what they are asked for (sizes recorded in coverage.signature_file_bytes_by_state; a class that does not exceed its '
+           'bound is not buildable); that libhdf5 reads a file with trailing bytes like the unpadded one, and that a reader killed while it '
+           'has a file open in mode r leaves no trace in it, is explored by the same hashes on the unchanged code, not assumed; the killed '
+           'client runs in a process of its own, outside the recorders: only the bytes of the two files judge it',
            'in-place stream: the arrays a caller obtains from the signature object (int / negative / numpy-int index, '
            'contiguous / open / stepped slice and its .values / .bounds / rows, index list, boolean mask, iteration, '
            'reversed(), .values[a:b], .bounds[a:b], np.asarray(.values)) are modelled as private values (Model/C18.v SRead '
@@ -433,20 +471,47 @@ def _install():
 	event.listen(Session, 'after_begin', ab)
 
 	orig_init = h5py.File.__init__
+	tl = threading.local()      # depth of h5py.File.__init__(path) calls of this thread (they open through h5f.open themselves)
 
 	def init(self, name, *a, **kw):
-		orig_init(self, name, *a, **kw)
+		by_name = isinstance(name, (str, bytes, os.PathLike))
+		if by_name:
+			tl.depth = getattr(tl, 'depth', 0) + 1
 		try:
-			p = os.path.realpath(os.fsdecode(name)) if isinstance(name, (str, bytes, os.PathLike)) else ''
+			orig_init(self, name, *a, **kw)
+		finally:
+			if by_name:
+				tl.depth -= 1
+		try:
+			p = os.path.realpath(os.fsdecode(name)) if by_name else ''
 			if p.startswith(_S['root']):
 				m = self.mode
 				rec['modes'].append((p, m, None if m == 'r' else _sha(p)))
 		except Exception:
 			pass
 
+	# a file can also be opened through h5py's LOW-LEVEL interface (h5py.h5f.open(name, flags, fapl), whose default flags are
+	# read-WRITE) and the identifier wrapped: h5py.File(fid).  h5py.File.__init__ is then given no path (and is also what every
+	# `obj.file` access calls, with an identifier: not an open), so such opens are recorded here, with the access intent libhdf5
+	# reports for the identifier (what h5py.File.mode shows); opens made by h5py.File(path) itself are recorded above, once
+	orig_open = h5py.h5f.open
+
+	def low_open(name, *a, **kw):
+		fid = orig_open(name, *a, **kw)
+		if not getattr(tl, 'depth', 0):
+			try:
+				p = os.path.realpath(os.fsdecode(name))
+				if p.startswith(_S['root']):
+					m = 'r' if fid.get_intent() == h5py.h5f.ACC_RDONLY else 'r+'
+					rec['modes'].append((p, m, None if m == 'r' else _sha(p)))
+			except Exception:
+				pass
+		return fid
+
 	if not getattr(h5py.File.__init__, '_c18', False):
 		init._c18 = True
 		h5py.File.__init__ = init
+		h5py.h5f.open = low_open
 
 
 def _class_flags(cls):
@@ -537,6 +602,8 @@ def finish(ctx):
 		ctx.broke('harness hygiene', 'the ORIGINAL tests/data/testdb_210818 changed during the campaign')
 	ctx.extra['h5py_default_mode_observed'] = sorted({m[1] for m in env.get('seen_modes', [])}) or ['r']
 	ctx.extra['session_classes_observed'] = sorted(env.get('seen_classes', set()))
+	if env.get('sig_sizes'):
+		ctx.extra['signature_file_bytes_by_state'] = dict(sorted(env['sig_sizes'].items()))
 
 
 # ------------------------------------------------------------------------------------------------
@@ -1225,6 +1292,7 @@ def k_store(ctx, cases):
 # uv / appid  PRAGMA user_version / application_id;  enc  utf8 | utf16le | utf16be (rebuilt from a dump)
 # ro       none | file (both files chmod 0444) | dir (files 0444 and directory 0555)
 # sig      signature file: orig | latest (rewritten with libver='latest')
+#          | <size class>[-latest][-pad]: big | huge | vast (> 1 / 4 / 16 MiB) | same-pad, see _build_sig_size
 # schema   (streams history-dbschema / history-dbschema-random) list of modifications that make the genome file an INCOMPLETE or
 #          FOREIGN one, applied in order to the shipped file before everything else (see _apply_schema):
 #          drop:T | dropindex:NAME | dropindex:* | addtable | addcol:T | addindex | dropcol:T.C | rename:T | rebuild:T |
@@ -1380,6 +1448,54 @@ def _apply_schema(mods, g):
 	return raw
 
 
+# SIZE CLASS / TRAILING BYTES of the signature file (state key `sig`, next to orig | latest): the shipped file has 213 signatures in
+# 257 KiB; a real reference data base has tens of thousands in hundreds of MiB, and code that reads one may treat a file differently
+# above some size (buffers, memory mapping, another open call).  <class>[-latest][-pad]:
+#   big / huge / vast  the 213 reference signatures followed by 5 / 20 / 72 further copies of them stored under ids that match no
+#                      genome (a reference data base may hold such signatures: data base B of the sequence stream does too):
+#                      > 1 MiB / > 4 MiB / > 16 MiB, written by the harness with h5py (same attributes, data set names and types)
+#   same               the shipped content and size (only with -pad)
+#   -latest            written with libver='latest' (superblock v3)
+#   -pad               zero bytes appended after the end of the HDF5 data up to the next multiple of 64 KiB, what a block-wise
+#                      copy (dd, some archive / object-store tools) leaves; libhdf5 reads such a file like the unpadded one
+SIG_COPIES = dict(same=0, big=5, huge=20, vast=72)
+SIG_MIN_SIZE = dict(same=0, big=1 << 20, huge=4 << 20, vast=16 << 20)
+SIG_PAD_BLOCK = 65536
+
+
+def _build_sig_size(sig, gs):
+	"""rewrite the signature file gs (a copy of the shipped one) in the size class / with the trailing bytes named by sig"""
+	import h5py
+	import numpy as np
+	parts = str(sig).split('-')
+	cls, opts = parts[0], parts[1:]
+	if cls not in SIG_COPIES or any(o not in ('latest', 'pad') for o in opts) or (cls == 'same' and opts != ['pad']):
+		raise ValueError(f'unknown signature file state {sig!r}')
+	copies = SIG_COPIES[cls]
+	if copies or 'latest' in opts:
+		with h5py.File(gs, 'r') as a:
+			attrs = [(k, a.attrs[k]) for k in a.attrs]
+			v, b = a['values'][:], a['bounds'][:]
+			ids = [bytes(x) for x in a['ids'][:]]
+		n = len(b) - 1
+		tmp = gs + '.tmp'
+		with h5py.File(tmp, 'w', **(dict(libver='latest') if 'latest' in opts else {})) as f:
+			for k, x in attrs:
+				f.attrs.create(k, x)
+			allids = ids + [b'c18-no-genome/%d/%d' % (c, i) for c in range(copies) for i in range(n)]
+			f.create_dataset('ids', data=np.array(allids, dtype=object), dtype=h5py.string_dtype())
+			f.create_dataset('values', data=np.tile(v, copies + 1))
+			f.create_dataset('bounds', data=np.concatenate([b] + [b[1:] + (c + 1) * b[-1] for c in range(copies)]).astype(b.dtype))
+		os.replace(tmp, gs)
+	size = os.path.getsize(gs)
+	if size <= SIG_MIN_SIZE[cls]:
+		raise RuntimeError(f'signature file of class {cls} has only {size} bytes')
+	if 'pad' in opts:
+		with open(gs, 'ab') as f:
+			f.write(b'\0' * (-size % SIG_PAD_BLOCK or SIG_PAD_BLOCK))
+	_S.setdefault('sig_sizes', {})[str(sig)] = os.path.getsize(gs)
+
+
 def _build_state(st, d):
 	"""d holds fresh copies of the shipped genome and signature file; leave them the way a user's tools could have:
 	every connection of the builder is closed when this returns"""
@@ -1400,6 +1516,8 @@ def _build_state(st, d):
 			for name in a:
 				a.copy(name, b)
 		os.replace(tmp, gs)
+	elif st['sig'] != 'orig':
+		_build_sig_size(st['sig'], gs)
 	if st['ro'] in ('file', 'dir'):
 		for n in os.listdir(d):
 			os.chmod(os.path.join(d, n), 0o444)
@@ -1625,6 +1743,8 @@ def _fp(inv):
 		return 0 if inv['cmd'] in ('query', 'querysig') else 1       # click opens -o of `query` while parsing
 	if f['kind'] == 'badfile':
 		return 10                                                     # data base loaded, then parsing fails
+	if f['kind'] == 'kill':
+		return 10                                                     # data base loaded and in use, then the process dies
 	if f['kind'] == 'sql':
 		j = f['at']
 		if j <= 1:
@@ -1666,6 +1786,35 @@ def _edit_and_commit(session, gset):
 			session.rollback()
 		except Exception:
 			pass
+
+
+KILLED_CLIENT = """
+import os, signal, sys
+from gambit.db import ReferenceDatabase
+db = ReferenceDatabase.load_from_dir(sys.argv[1])
+n = int(sys.argv[2])
+got = [db.signatures[i] for i in range(min(n, len(db.signatures)))]
+for g in db.genomes[:n]:
+    _ = g.taxon, g.key
+sys.stdout.write('C18-CLIENT-READY\\n')
+sys.stdout.flush()
+os.kill(os.getpid(), signal.SIGKILL)
+"""
+
+
+def _killed_client(db, n):
+	"""run the client above in a process of its own; -> description of how it ended (the harness recorders do not see it)"""
+	import signal
+	import subprocess
+	import sys
+	try:
+		r = subprocess.run([sys.executable, '-c', KILLED_CLIENT, db, str(int(n))], capture_output=True, text=True, timeout=300)
+	except Exception as e:
+		return 'client process could not be run: ' + repr(e)[:120]
+	if 'C18-CLIENT-READY' in r.stdout and r.returncode == -signal.SIGKILL:
+		_S['kills'] = _S.get('kills', 0) + 1
+		return 'client process killed while it held the data base open'
+	return 'client process ended with %s before it was killed: %s' % (r.returncode, (r.stderr or '').strip()[-160:])
 
 
 def _run_invocation(inv, idx, strict=True):
@@ -1715,6 +1864,11 @@ def _run_invocation(inv, idx, strict=True):
 			if res.exit_code != 0:
 				status = 'failed'
 				detail = (repr(res.exception) + ' ' + (res.output or '')[-120:]).strip()
+		elif cmd == 'load' and f.get('kind') == 'kill':
+			# the client is ANOTHER PROCESS, which loads the data base, has read n signatures and genomes and still holds everything
+			# open when it is killed (SIGKILL: no handler, no cleanup of gambit / h5py / libhdf5 / SQLite runs) -- a command that
+			# fails in the hardest way; what it leaves in the two files is compared by the caller like after every invocation
+			status, detail = 'failed', _killed_client(db, inv.get('n', 1))
 		elif cmd == 'load' and inv.get('via') == 'gset':
 			# the genome file alone, through the library's load_genomeset(): the default session and the genome set
 			from gambit.db import load_genomeset
@@ -1928,6 +2082,9 @@ def _history_case(ctx, c, m, mflags_ok, holder):
 			edits += 1      # arrays obtained from db.signatures were effectively modified in place
 		if r.get('eff'):
 			ctx.count('history:effective-in-place-modifications', r['eff'])
+		if (inv.get('fail') or {}).get('kind') == 'kill':
+			ctx.count('history:client-process-killed-holding-the-data-base' if r['detail'].startswith('client process killed')
+			          else 'history:client-process-ended-before-the-kill')
 		# a failing invocation was announced but the command succeeded (or vice versa): the generator's
 		# idea of what fails is not part of the property -- only counted
 		if bool(inv.get('fail')) != (r['status'] == 'failed'):
@@ -3270,7 +3427,35 @@ def _dbstate_uses():
 	]
 
 
-def _rand_state(rng):
+# size classes / trailing bytes of the signature file enumerated by the stream history-sigsize (see _build_sig_size), alone and
+# combined with other dimensions of the persistent state
+SIGSIZE_STATES_QUICK = [dict(sig='big-pad'), dict(sig='big'), dict(sig='same-pad'), dict(sig='huge', jm='wal')]
+SIGSIZE_STATES = SIGSIZE_STATES_QUICK + [
+	dict(sig='huge-pad'), dict(sig='vast'), dict(sig='vast-pad'), dict(sig='big-latest'), dict(sig='big-latest-pad'), dict(sig='huge-latest'),
+	dict(sig='big', ro='file'), dict(sig='big-pad', jm='wal', sidecar='ckpt'), dict(sig='huge-pad', page=512, edit='free'),
+	dict(sig='big', schema=['drop:taxa']), dict(sig='big-pad', schema=['file:zero']),
+]
+
+
+def _sigsize_uses():
+	"""read-side uses that open the signature file (command / library call / handle operations / failing variants)"""
+	return [
+		dict(cmd='info-db', flags=[]),
+		dict(cmd='load', n=2, libquery=True, mut=[[0, 0, 3, 0]], close=True),
+		dict(cmd='querysig'),
+		dict(cmd='libstore', ops=[[1, 2], [2, 0, 5], [6, 1, 3, 0, 10, 2], [5]]),
+		dict(cmd='dist', n=1, q=[1]),
+		dict(cmd='load', via='files', n=3, libquery=True, qslice=[40, 1, 1]),
+		dict(cmd='query', n=1, q=[2], fmt='csv'),
+		dict(cmd='querysig', fail=dict(kind='sql', at=4)),
+		dict(cmd='libstore', ops=[[6, 0, 0, 1, 200, 0], [3, 1], [4], [5], [0, 0], [1, 7]]),
+		dict(cmd='load', via='cli', n=1, mut=[[3, 1, 100, 1]], close=True, mut_after_close=5),
+		dict(cmd='info-file', flags=['-j']),
+		dict(cmd='query', n=1, q=[3], fmt='json', fail=dict(kind='badfile')),
+	]
+
+
+def _rand_state(rng, sigs=('latest',)):
 	"""a random combination of the state dimensions (mostly two or three away from the shipped state)"""
 	st = {}
 	jm = rng.choice(['wal', 'wal', 'wal', 'delete', 'truncate', 'persist', 'memory', 'off'])
@@ -3293,7 +3478,7 @@ def _rand_state(rng):
 	if rng.random() < 0.2:
 		st['ro'] = rng.choice(['file', 'dir'])
 	if rng.random() < 0.2:
-		st['sig'] = 'latest'
+		st['sig'] = rng.choice(sigs)
 	return st
 
 
@@ -3726,6 +3911,8 @@ def generate(ctx):
 	# files / page size / auto_vacuum / freelist / user_version / encoding / read-only on disk / HDF5 format version) ----
 	uses = _dbstate_uses()
 	per = ctx.pick(2, len(uses))
+	rsigs = ctx.pick(('latest', 'latest', 'big', 'big-pad', 'same-pad'),
+	                 ('latest', 'latest', 'big', 'big-pad', 'same-pad', 'huge', 'huge-pad', 'big-latest', 'big-latest-pad', 'vast'))
 	n = 0
 	for k, st in enumerate(DBSTATES):
 		# quick: `per` of the uses per state, rotating with the state index and the seed, the first one always a CLI command
@@ -3740,8 +3927,28 @@ def generate(ctx):
 	ctx.extra['exhaustive_scope'] += (f'; history-dbstate: each of {len(DBSTATES)} persistent states of the data base files x '
 	                                  f'{"every one" if per == len(uses) else str(per + 1)} of {len(uses)} read-side uses')
 	for _ in range(ctx.pick(10, 150)):
-		yield 'history', dict(state=_rand_state(rng), invs=[_rand_state_inv(rng) for _ in range(rng.randint(2, ctx.pick(3, 5)))])
+		yield 'history', dict(state=_rand_state(rng, rsigs), invs=[_rand_state_inv(rng) for _ in range(rng.randint(2, ctx.pick(3, 5)))])
 		ctx.count('stream:history-dbstate-random')
+	# ---- histories against a data base whose SIGNATURE FILE is of another size class (> 1 MiB, > 4 MiB, > 16 MiB: further signatures
+	# that match no genome) and / or carries trailing bytes after the HDF5 data: every state x read-side uses, one of them a client
+	# PROCESS that is killed while it holds the data base open (a failing command); bytes of both files + open mode after each ----
+	suses = _sigsize_uses()
+	n = 0
+	for k, st in enumerate(ctx.pick(SIGSIZE_STATES_QUICK, SIGSIZE_STATES)):
+		j = k + ctx.seed
+		if ctx.pick(1, 0):
+			invs = [suses[(2 * j) % len(suses)], suses[(2 * j + 1) % len(suses)]]
+			if k < 2:
+				invs.insert(j % 2, dict(cmd='load', n=2, fail=dict(kind='kill')))
+		else:
+			invs = suses[j % len(suses):] + suses[:j % len(suses)]
+			invs.insert(2 + j % 3, dict(cmd='load', n=1 + j % 3, fail=dict(kind='kill')))
+		invs = invs + [dict(cmd='info-db', flags=['-j'])]
+		yield 'history', dict(state=json.loads(json.dumps(st)), invs=[json.loads(json.dumps(i)) for i in invs])
+		n += 1
+	ctx.count('stream:history-sigsize', n)
+	ctx.extra['exhaustive_scope'] += (f'; history-sigsize: each of {n} size classes / trailing-byte states of the signature file x '
+	                                  f'{"every one" if not ctx.pick(1, 0) else "3-4"} of {len(suses) + 2} read-side uses')
 	# ---- histories against an INCOMPLETE / FOREIGN genome file (a model table / an index / a column missing, unknown tables and
 	# columns, no or two genome sets, a zero-byte / non-SQLite / truncated / empty / foreign SQLite file under the .gdb name):
 	# the library's ways to load a data base, CLI commands, sessions -- most of them FAIL there; bytes compared after each ----
